@@ -20,6 +20,7 @@ class Group:
     def add_block(self, op: str, block: list[str], *, first: bool) -> None:
         self.ops.append(op)
         st: dict[int, tuple[str, str]] = {}
+        last: dict[int, str] = {}
         store: list[str] = []
         for ln in block:
             t = ln.split()
@@ -36,16 +37,18 @@ class Group:
                 self.fatal.append(t[1])
             elif t[0] == 'st':
                 st[int(t[1])] = (t[2], t[3])
+                last[int(t[1])] = t[4] if len(t) > 4 else '-' 
             elif t[0] == 'store':
                 store = t[1:]
             elif t[0] == 'now':
                 self.now = int(t[1])
-        self.state = {'jobs': st, 'store': store}
+        self.state = {'jobs': st, 'store': store, 'last': last}
 
     def canon(self, *, err_class: bool = False) -> tuple:
         ret = self.ret if err_class or self.ret == 'ok' else 'err'
         return (ret, tuple(self.execs), tuple(self.cbs), tuple(sorted(self.excs)), tuple(self.fatal),
-                tuple(sorted(self.state['jobs'].items())), tuple(self.state['store']), self.now)
+                tuple(sorted(self.state['jobs'].items())), tuple(self.state['store']), self.now,
+                tuple(sorted(self.state.get('last', {}).items())))
 
 
 def group_blocks(lines: list[str], blocks: list[list[str]]) -> list[Group]:
